@@ -39,6 +39,19 @@
 (* RhatFunctional: the chains entering R-hat are <<receiver>> \o list as   *)
 (* the CALLER last set it (ghost fl0).  The state has no history, so the   *)
 (* reachable graph contains every sequence of calls of any length.         *)
+(*                                                                         *)
+(* DATA LAYOUT (dimension  lay  of both configurations).  The stored chain *)
+(* is an array; a LAYOUT fixes HOW the values are held - number type       *)
+(* (float64 / int64 / int32 / float32), memory order (C / Fortran),        *)
+(* contiguity (a view of every second column of a wider array), write      *)
+(* protection - never WHICH values.  Every value of this specification is  *)
+(* a small integer (function values of the geometry "half": an integer     *)
+(* over Den = 2), exactly representable in every layout, so the expected   *)
+(* columns, flags, refusals and EXACT rational statistics are functions of *)
+(* the values alone: LayoutIndependent / FLayoutIndependent.  Deviations   *)
+(* CastBack (a statistic is cast back to the number type of the stored     *)
+(* chain: truncated for the integer layouts) and ConvKeepsType (converted  *)
+(* samples are stored in the number type of the receiver) violate them.    *)
 (***************************************************************************)
 EXTENDS Mat, FiniteSets, Json
 
@@ -51,14 +64,20 @@ CONSTANTS Ns,        \* chain lengths of the source
           Percents,  \* credibility levels (integers 0..100)
           NChains,   \* number of additional chains handed to R-hat
           Dev,       \* "none" | "offbyone" | "boundary" | "dropflag" | "inplace" | "lexorder" | "jointnothin"
-                     \*  frame machine: "rhatinsertsself" | "convinplace"
+                     \*  frame machine: "rhatinsertsself" | "convinplace";  layouts: "castback" | "convkeepstype"
+          Layouts,   \* data layouts of the SOURCE array, used (besides the reference layout) with the chain lengths LayNs
+          LayNs,     \* chain lengths of the configurations in the layouts of Layouts (every geometry of Geoms; "wide" for
+                     \*  LayNs \cap WideNs; joint sets for LayNs \cap JointNs)
           Emit,
           FrameNs,     \* frame machine: chain lengths
           FrameGeoms,  \* frame machine: geometry kinds
           FrameLists,  \* frame machine: which of the caller's lists FList(k)
-          MaxDerived   \* frame machine: number of results of library calls kept on the heap
+          MaxDerived,  \* frame machine: number of results of library calls kept on the heap
+          FrameLayouts,   \* frame machine: layouts (besides the reference layout) of the configurations
+          FrameLayGeoms,  \*   [N \in FrameNs, g \in FrameLayGeoms, lst \in FrameLayLists]
+          FrameLayLists
 
-VARIABLES c,      \* configuration [N, g, joint]
+VARIABLES c,      \* configuration [N, g, joint, lay]
           obj,    \* the current sample set
           obj2,   \* second member of a joint sample set (NoObj otherwise)
           src,    \* what the SOURCE object holds now (ghost; the source is never the result of an action)
@@ -66,7 +85,7 @@ VARIABLES c,      \* configuration [N, g, joint]
 vars == <<c, obj, obj2, src, sel>>
 
 \* frame machine (constant in the behaviours of Init / Next)
-VARIABLES fc,     \* configuration [N, g, lst]
+VARIABLES fc,     \* configuration [N, g, lst, lay]
           fo,     \* heap: sequence of objects [ch, cols, par, vec, geom]; ch = which stored chain the columns index
           fl,     \* the caller's list of chains (identities = positions in fo), as it is NOW
           fl0,    \* ghost: the list as the CALLER last set it
@@ -81,18 +100,32 @@ NoObj == [cols |-> <<>>, par |-> TRUE, vec |-> TRUE, geom |-> "none"]
 \*  c1d1  Continuous1D(1)        c1d3  Continuous1D(3)       wide  Continuous1D(12) (names v0..v11)
 \*  imgC / imgF  Image2D((2,3)) in C / F order              c2d   Continuous2D((2,3)) (no vector form)
 \*  mapsq MappedGeometry(Continuous1D(2), x -> x^2, sqrt)    step  StepExpansion(linspace(0,1,4), n_steps=2)
+\*  half  MappedGeometry(Continuous1D(2), x -> x / 2, y -> 2 y)   (function values are NOT integers)
 ParDim(g) == CASE g = "c1d1" -> 1 [] g = "c1d3" -> 3 [] g = "wide" -> 12
-               [] g \in {"imgC", "imgF", "c2d"} -> 6 [] g = "mapsq" -> 2 [] g = "step" -> 2
+               [] g \in {"imgC", "imgF", "c2d"} -> 6 [] g \in {"mapsq", "half"} -> 2 [] g = "step" -> 2
 FunShape(g) == CASE g = "c1d1" -> <<1>> [] g = "c1d3" -> <<3>> [] g = "wide" -> <<12>>
-                 [] g \in {"imgC", "imgF", "c2d"} -> <<2, 3>> [] g = "mapsq" -> <<2>> [] g = "step" -> <<4>>
+                 [] g \in {"imgC", "imgF", "c2d"} -> <<2, 3>> [] g \in {"mapsq", "half"} -> <<2>> [] g = "step" -> <<4>>
 FunIs1D(g)  == Len(FunShape(g)) = 1
 HasVec(g)   == g # "c2d"
 FunvecDim(g) == IF FunIs1D(g) THEN FunShape(g)[1] ELSE ParDim(g)
 
+\* ---- data layouts ------------------------------------------------------------
+\*  f64      C-ordered float64, writable (the reference: what Samples(np.array(values)) holds)
+\*  i64 i32  integer arrays        f32  single precision        fortran  F-ordered float64
+\*  strided  a non-contiguous view: every second column of an array twice as wide (the other columns hold other numbers)
+\*  readonly flags.writeable = False
+\*  i32sr    int32 + strided + read-only        f32f  float32 + F-ordered
+RefLayout  == "f64"
+AllLayouts == {"f64", "i64", "i32", "f32", "fortran", "strided", "readonly", "i32sr", "f32f"}
+IntLayouts == {"i64", "i32", "i32sr"}
+
 \* ---- stored values ----------------------------------------------------------
 PV(i, id) == 20 * i + (((3 + i) * id) % 17) + 1            \* parameter i (0-based) of column id; id < 17, i < 14
 
-\* function value at 1-D position k
+\* The value of an object at a position is the rational  Value / Den:  Den = 2 for the function values of "half", else 1.
+Den(o) == IF ~o.par /\ o.geom = "half" THEN 2 ELSE 1
+
+\* function value (numerator) at 1-D position k
 FVal1(g, k, id) == CASE g = "mapsq" -> PV(k, id) * PV(k, id)
                      [] g = "step"  -> PV(k \div 2, id)        \* nodes 0,1 -> step 0; nodes 2,3 -> step 1
                      [] OTHER       -> PV(k, id)
@@ -110,7 +143,14 @@ Coords(o) ==
     ELSE LET r == FunShape(o.geom)[1]  cc == FunShape(o.geom)[2]
          IN [q \in 1..(r * cc) |-> <<(q - 1) \div cc, (q - 1) % cc>>]
 
-Row(o, pos) == F([k \in 1..Len(o.cols) |-> Value(o, pos, o.cols[k])])
+\* what an object holds when its SOURCE array has layout lay.  Intended design: the values, whatever the layout.
+\* Deviation ConvKeepsType: a conversion stores its result in the number type of the receiver's array - function values
+\* that are not integers are truncated for the integer layouts.
+ValueL(lay, o, pos, id) ==
+    LET v == Value(o, pos, id)
+    IN IF Dev = "convkeepstype" /\ lay \in IntLayouts /\ Den(o) > 1 THEN (v \div Den(o)) * Den(o) ELSE v
+RowL(lay, o, pos) == F([k \in 1..Len(o.cols) |-> ValueL(lay, o, pos, o.cols[k])])
+Row(o, pos) == RowL(RefLayout, o, pos)
 
 \* ---- exact statistics of an integer sequence (distinct entries) -------------
 RECURSIVE ISum(_)
@@ -139,14 +179,25 @@ PctSeq == SortSet(Percents)
 \* additional chains for R-hat: chain j (1..NChains) holds at coordinate pos, column id
 ChainVal(j, v, id) == v + j * (1 + ((id * id + j) % 5))
 
-Stats(o, pos) ==
-    LET xs == Row(o, pos)
+\* the value a statistic (exact rational q >= 0) is returned as.  Intended design: q, whatever the layout.
+\* Deviation CastBack: cast back to the number type of the stored chain - truncated for the integer layouts.
+Out(lay, q) == IF Dev = "castback" /\ lay \in IntLayouts THEN R(q[1] \div q[2]) ELSE q
+
+\* vals / chains are numerators over den; the statistics are those of the values vals / den
+StatsL(lay, o, pos) ==
+    LET xs == RowL(lay, o, pos)
         s  == SortSet(Range(xs))
-    IN [pos |-> pos, vals |-> xs, mean |-> Mean(xs), var |-> Var(xs), med |-> Pct(s, R(50)),
-        ci |-> F([q \in 1..Len(PctSeq) |-> CI(s, PctSeq[q])]),
+        d  == Den(o)
+        U(q) == Out(lay, RDiv(q, R(d)))
+    IN [pos |-> pos, vals |-> xs, den |-> d, mean |-> U(Mean(xs)), var |-> Out(lay, RDiv(Var(xs), R(d * d))), med |-> U(Pct(s, R(50))),
+        ci |-> F([q \in 1..Len(PctSeq) |-> LET I == CI(s, PctSeq[q])
+                                            IN [pct |-> I.pct, lo |-> U(I.lo), hi |-> U(I.hi), width |-> U(I.width)]]),
         chains |-> F([j \in 1..NChains |-> [k \in 1..Len(o.cols) |-> ChainVal(j, xs[k], o.cols[k])]])]
 
-AllStats(o) == LET C == Coords(o) IN F([q \in 1..Len(C) |-> Stats(o, C[q])])
+AllStatsL(lay, o) == LET C == Coords(o) IN F([q \in 1..Len(C) |-> StatsL(lay, o, C[q])])
+\* the statistics of an object of the running configuration (one of the two machines is off: its configuration is NoC / NoFC)
+CurLay == IF fc.g = "none" THEN c.lay ELSE fc.lay
+AllStats(o) == AllStatsL(CurLay, o)
 
 \* ---- arviz hand-over ----------------------------------------------------------
 Dim(o) == Len(Coords(o))
@@ -261,11 +312,15 @@ Source(k) == [cols |-> [i \in 1..k.N |-> i - 1], par |-> TRUE, vec |-> TRUE, geo
 Source2(k) == IF k.joint THEN [cols |-> [i \in 1..(k.N + 1) |-> i - 1], par |-> FALSE, vec |-> FALSE, geom |-> "imgF"]
               ELSE NoObj
 
-Configs == {[N |-> n, g |-> g, joint |-> FALSE] : n \in Ns, g \in Geoms \ {"wide"}}
-           \cup {[N |-> n, g |-> "wide", joint |-> FALSE] : n \in (IF "wide" \in Geoms THEN WideNs ELSE {})}
-           \cup {[N |-> n, g |-> "c1d3", joint |-> TRUE] : n \in JointNs}
+ConfigsOf(ns, wns, jns, lays) ==
+    {[N |-> n, g |-> g, joint |-> FALSE, lay |-> l] : n \in ns, g \in Geoms \ {"wide"}, l \in lays}
+    \cup {[N |-> n, g |-> "wide", joint |-> FALSE, lay |-> l] : n \in (IF "wide" \in Geoms THEN wns ELSE {}), l \in lays}
+    \cup {[N |-> n, g |-> "c1d3", joint |-> TRUE, lay |-> l] : n \in jns, l \in lays}
+\* every configuration in the reference layout; those with N \in LayNs also in every other layout of Layouts
+Configs == ConfigsOf(Ns, WideNs, JointNs, {RefLayout})
+           \cup ConfigsOf(LayNs, LayNs \cap WideNs, LayNs \cap JointNs, Layouts \ {RefLayout})
 
-NoFC == [N |-> 0, g |-> "none", lst |-> 0]
+NoFC == [N |-> 0, g |-> "none", lst |-> 0, lay |-> RefLayout]
 FrameOff == fc = NoFC /\ fo = <<>> /\ fl = <<>> /\ fl0 = <<>> /\ fthin = FALSE /\ fswap = FALSE
 
 Init == /\ c \in Configs
@@ -340,6 +395,15 @@ PlotStatsOK(o) == PlotObj(o) # o =>
     \A q \in 1..Len(Coords(PlotObj(o))) : LET pos == Coords(PlotObj(o))[q]
                                            IN Row(PlotObj(o), pos) = Row(o, <<VecIdx(o.geom, pos)>>)
 
+\* DATA LAYOUT: the expected columns (vals) and the exact statistics of every reachable object - hence everything the
+\* replay compares - are the same in every layout of the source array
+LayoutIndependent ==
+    (obj.cols # <<>> /\ c.lay # RefLayout) =>
+        /\ c.lay \in AllLayouts
+        /\ AllStatsL(c.lay, obj) = AllStatsL(RefLayout, obj)
+        /\ (c.joint /\ obj2.cols # <<>> => AllStatsL(c.lay, obj2) = AllStatsL(RefLayout, obj2))
+        /\ (PlotObj(obj) # obj => AllStatsL(c.lay, PlotObj(obj)) = AllStatsL(RefLayout, PlotObj(obj)))
+
 \* evaluated once per distinct state: LoMedHi and FunStats on the exact statistics of the current object;
 \* also emits these statistics (and those of the second joint member) for the conformance replay
 Node ==
@@ -372,7 +436,7 @@ FIdx == <<2, 0>>
 \* shifted column by column (only chain 0 objects are ever converted, so the shift commutes with nothing it should not)
 FRow(o, pos) == LET xs == Row(o, pos)
                 IN IF o.ch = 0 THEN xs ELSE F([k \in 1..Len(xs) |-> ChainVal(o.ch, xs[k], o.cols[k])])
-FRows(o) == LET C == Coords(o) IN F([q \in 1..Len(C) |-> [pos |-> C[q], vals |-> FRow(o, C[q])]])
+FRows(o) == LET C == Coords(o) IN F([q \in 1..Len(C) |-> [pos |-> C[q], vals |-> FRow(o, C[q]), den |-> Den(o)]])
 
 Recvs == {i \in DOMAIN fo : fo[i].ch = 0}                      \* receivers: "self" and everything derived from it
 Room  == Cardinality(Recvs) - 1 < MaxDerived
@@ -459,9 +523,11 @@ FSwapList ==
           /\ UNCHANGED <<fc, fo, fthin>>
           /\ FEmit("swaplist", 0, 0, 1, "", [spare |-> sp], <<>>, fl')
 
-FConfigs == {[N |-> n, g |-> g, lst |-> k] : n \in FrameNs, g \in FrameGeoms, k \in FrameLists}
+FConfigs == {[N |-> n, g |-> g, lst |-> k, lay |-> RefLayout] : n \in FrameNs, g \in FrameGeoms, k \in FrameLists}
+            \cup {[N |-> n, g |-> g, lst |-> k, lay |-> l] : n \in FrameNs, g \in FrameLayGeoms, k \in FrameLayLists,
+                                                           l \in FrameLayouts \ {RefLayout}}
 FBase(k) == [i \in 1..NBase |-> [ch |-> i - 1, cols |-> [m \in 1..k.N |-> m - 1], par |-> TRUE, vec |-> TRUE, geom |-> k.g]]
-NoC == [N |-> 0, g |-> "none", joint |-> FALSE]
+NoC == [N |-> 0, g |-> "none", joint |-> FALSE, lay |-> RefLayout]
 
 FInit == /\ fc \in FConfigs
          /\ fo = FBase(fc) /\ fl = FList(fc.lst) /\ fl0 = FList(fc.lst) /\ fthin = FALSE /\ fswap = FALSE
@@ -492,6 +558,11 @@ RhatFunctional == \A r \in Recvs : \A m \in {"list", "single"} : RhatChains(r, m
 FHeapLegal == \A i \in DOMAIN fo : /\ fo[i].cols # <<>> /\ (fo[i].par => fo[i].vec) /\ fo[i].geom = fc.g
                                    /\ (fo[i].ch # 0 => fo[i].par)
               /\ \A k \in DOMAIN fl : fl[k] \in DOMAIN fo /\ fo[fl[k]].ch # 0
+
+FLayoutIndependent ==
+    (fo # <<>> /\ fc.lay # RefLayout) =>
+        /\ fc.lay \in AllLayouts
+        /\ \A r \in Recvs : AllStatsL(fc.lay, fo[r]) = AllStatsL(RefLayout, fo[r])
 
 \* evaluated once per distinct state: emits the exact rows of every object and the exact statistics of the newest receiver
 FNode ==
